@@ -16,6 +16,7 @@ mod c14;
 mod c15;
 mod c16;
 mod c18;
+mod bigpop;
 mod selectors;
 mod interp;
 mod pushref;
